@@ -24,20 +24,39 @@ structure M where
   sent : Nat              -- requests handed to connections so far (all executions)
   left : Nat              -- usable hosts the shared iterator will still hand out
   exs : List Ex
+  unsent : Nat := 0       -- attempts that found the executions' context cancelled: counted, nothing written
+  log : List Nat := []    -- the number each attempt was given (`queryMetrics.attempt` returns the counter's
+                          -- previous value: ObservedQuery.Attempt / ObservedBatch.Attempt), most recent first
 deriving DecidableEq, Repr
 
 inductive Act where
   | launch (i : Nat)                -- `go q.run(...)` for execution i reaches its first `hostIter()`
   | complete (i : Nat) (r : Res)    -- the attempt of execution i ends with result r; `qry.attempt`: counter += 1
   | decide (i : Nat)                -- execution i evaluates `rt.Attempt(qry)` (reading the counter as it is NOW) and `GetRetryType`
+  | abort (i : Nat)                 -- like `launch` / `decide`, but the context of the executions has been cancelled
+                                    -- meanwhile (another execution delivered the result): the attempt execution i goes
+                                    -- on to make returns `ctx.Err()` from `Conn.exec` before anything is written — it is
+                                    -- still counted by `qry.attempt` — and ends the execution
 deriving DecidableEq, Repr
 
-def init (c0 hosts e : Nat) : M := ⟨c0, 0, hosts, List.replicate e .idle⟩
+def init (c0 hosts e : Nat) : M := { cnt := c0, sent := 0, left := hosts, exs := List.replicate e .idle }
+
+/-- `qry.attempt`: `queryMetrics.attempt` under ONE lock hands out the counter's value and increments it -/
+def M.count (m : M) : M := { m with cnt := m.cnt + 1, log := m.cnt :: m.log }
 
 /-- take the next usable host from the shared iterator and send, or finish when it is exhausted -/
 def M.sendNext (m : M) (i : Nat) : M :=
   if m.left = 0 then { m with exs := m.exs.set i .done }
   else { m with sent := m.sent + 1, left := m.left - 1, exs := m.exs.set i .inflight }
+
+/-- an attempt on a cancelled context: counted, not sent, the execution returns (a logical error) -/
+def M.deadAttempt (m : M) (i : Nat) : M :=
+  { m.count with unsent := m.unsent + 1, exs := m.exs.set i .done }
+
+/-- the same after `hostIter()`: it ends the execution without an attempt when the iterator is exhausted -/
+def M.deadNext (m : M) (i : Nat) : M :=
+  if m.left = 0 then { m with exs := m.exs.set i .done }
+  else { m.deadAttempt i with left := m.left - 1 }
 
 def step (pol : Option Policy) (m : M) : Act → M
   | .launch i =>
@@ -46,7 +65,7 @@ def step (pol : Option Policy) (m : M) : Act → M
       | _ => m
   | .complete i r =>
       match m.exs[i]? with
-      | some .inflight => { m with cnt := m.cnt + 1, exs := m.exs.set i (.counted r) }
+      | some .inflight => { m.count with exs := m.exs.set i (.counted r) }
       | _ => m
   | .decide i =>
       match m.exs[i]? with
@@ -61,6 +80,20 @@ def step (pol : Option Policy) (m : M) : Act → M
               | _ => { m with exs := m.exs.set i .done }
       | some (.counted _) => { m with exs := m.exs.set i .done }
       | _ => m
+  | .abort i =>
+      match m.exs[i]? with
+      | some .idle => m.deadNext i
+      | some (.counted (.err e)) =>
+          match pol with
+          | none => { m with exs := m.exs.set i .done }
+          | some p =>
+            if !p.attempt m.cnt then { m with exs := m.exs.set i .done }
+            else match p.rtype e with
+              | .retry => m.deadAttempt i
+              | .nextHost => m.deadNext i
+              | _ => { m with exs := m.exs.set i .done }
+      | some (.counted _) => { m with exs := m.exs.set i .done }
+      | _ => m
 
 def run (pol : Option Policy) (m : M) (sched : List Act) : M := sched.foldl (step pol) m
 
@@ -69,6 +102,9 @@ def started : List Ex → Nat
   | [] => 0
   | .idle :: l => started l
   | _ :: l => started l + 1
+
+/-- no attempt is in flight (in particular: every execution has returned) -/
+def quiet (l : List Ex) : Bool := l.all fun x => x != .inflight
 
 /-- what a retry policy of the form `Attempts() ≤ lim` allows E concurrent executions in total: each execution's
     first attempt is unconditional, and each of the first `lim` completed attempts can license one more -/
